@@ -47,7 +47,8 @@ def run(tier):
         'encode': Encode(), 'encode(2)': Encode(2), 'encode.nonconstructive': Encode(constructive=False),
         'encode.reset_bits': Encode(reset_bits=True),
         'discard.qubit': Discard(), 'discard.2qubits': Discard(2), 'discard.bit': Discard(bit),
-        'mixedstate.qubit': MixedState(), 'mixedstate.bit': MixedState(bit),
+        'discard.bit_qubit': Discard(bit @ qubit), 'discard.qubit_bit_bit': Discard(qubit @ bit @ bit),
+        'mixedstate.qubit': MixedState(), 'mixedstate.bit': MixedState(bit), 'mixedstate.qubit_bit': MixedState(qubit @ bit),
         'scalar.pure': scalar(a + I * b), 'scalar.mixed': scalar(a, is_mixed=True),
         'classical.gate': ClassicalGate('f', 1, 1, [a, b, c, d]),
         'classical.gate.dagger': ClassicalGate('f', 1, 2, [a, b, c, d, 0, 1, a * b, 2]).dagger(),
